@@ -1068,13 +1068,22 @@ fn goal_call(rng: &mut Rng, w: &World, policy: &Policy, view: &View) -> Option<V
                     Some(json!({"a": "ReportFault", "m": m, "age": 1, "proven": true, "failSend": false, "target": m}))
                 }
                 5 => {
-                    // (after a top-up that covers the debt) a withdrawal that pays out nothing or next to nothing
+                    // (after a top-up that just covers the debt) a pre-commitment whose deposit the top-up does not cover on top of the debt
+                    // (refused for lack of funds, the debt stays) ...
+                    w.goal_state.set(6);
+                    let n = fresh_numbers(1)[0];
+                    let exp = epoch + 30 * 2880 + policy.pre_commit_challenge_delay + policy.min_sector_expiration + 5;
+                    Some(json!({"a": "PreCommit", "m": m, "c": "worker", "sectors": [{"n": n, "exp": exp}]}))
+                }
+                6 => {
+                    // ... then a withdrawal that pays out nothing or next to nothing
                     w.goal_state.set(4);
                     Some(json!({"a": "Withdraw", "m": m, "c": "owner", "nano": *rng.pick(&[0, 0, 1])}))
                 }
                 _ => {
-                    if epoch - w.goal_dl.get() > 4 * period + 12 || secs.iter().all(|s| !s.live()) { done(w); w.neglect.set(false); return None; }
                     let limbs = ms["debt"].as_array().unwrap();
+                    // (the recipe ends some time after the time-out, once the debt has been dealt with)
+                    if epoch - w.goal_dl.get() > 4 * period + 12 || (secs.iter().all(|s| !s.live()) && limbs.len() <= 1) { done(w); w.neglect.set(false); return None; }
                     // (only after the fault time-out two and a half periods in, so that the time-out meets the debt)
                     if limbs.len() > 1 && epoch - w.goal_dl.get() > 2 * period + 18 && rng.chance(25) {
                         let mut debt: u128 = 0;
@@ -1084,7 +1093,7 @@ fn goal_call(rng: &mut Rng, w: &World, policy: &Policy, view: &View) -> Option<V
                         let whole = (debt / 1_000_000_000_000_000_000) as i64;
                         let nano = ((debt % 1_000_000_000_000_000_000) / 1_000_000_000) as i64 + 1;
                         w.goal_state.set(5);
-                        return Some(json!({"a": "Fund", "m": m, "whole": whole, "nano": nano + *rng.pick(&[0, 0, 1000])}));
+                        return Some(json!({"a": "Fund", "m": m, "whole": whole, "nano": nano}));
                     }
                     if rng.chance(45) {
                         Some(json!({"a": "Fund", "m": m, "nano": *rng.pick(&[1, 1, 50, 1000, 100_000])}))
